@@ -14,7 +14,7 @@ from .. import model as MD
 from .. import observe as O
 from .. import pipeline as P
 from ..compare import diff
-from ..core import h64, vacuity
+from ..core import h64, hash_seed_reruns, vacuity
 from ..model import M, ModelRefuse
 
 LEVEL = 'model_checking'
@@ -148,6 +148,8 @@ def run(run):
                           'hash_seed': __import__('os').environ.get('PYTHONHASHSEED')}
     vacuity(run, ['clause:result', 'clause:non-disjoint-refused', 'entry:Table.concat', 'entry:biom.concat',
                   'entry:single'])
+    if not run.quick:
+        hash_seed_reruns(run, (1, 2))
     run.assumptions.append('other-axis order and other-axis metadata of the result are not part of the '
                            'property (id set compared, metadata on the concatenated axis only)')
 
